@@ -16,32 +16,29 @@ struct rset {
 static int re_groupcount(char *s)
 {
 	int n = 0;	/* number of groups */
-	int brk = 0;	/* one if inside a bracket expression */
-	int brk2 = 0;	/* nested bracket type: ':', '*', or '=' */
 	while (*s) {
-		if (!brk) {
+		if (s[0] == '\\' && s[1]) {	/* an escaped character */
+			s += 2;
+		} else if (s[0] == '[') {	/* a bracket expression, as in regex.c's brk_len() */
+			s++;
+			if (s[0] == '^')
+				s++;
+			if (s[0] == ']')
+				s++;
+			while (s[0] && s[0] != ']') {
+				if (s[0] == '[' && (s[1] == ':' || s[1] == '='))
+					while (s[0] && s[0] != ']')
+						s++;
+				if (s[0])
+					s++;
+			}
+			if (s[0] == ']')
+				s++;
+		} else {
 			if (s[0] == '(')
 				n++;
-			if (s[0] == '\\' && s[1]) {
-				s++;
-			} else if (s[0] == '[' && s[1] && s[2]) {
-				s += s[1] == '^' ? 2 : 1;
-				brk = 1;
-			}
-		} else {
-			if (!brk2) {
-				if (s[0] == ']')
-					brk = 0;
-				if (s[0] == '[' && (s[1] == ':' || s[1] == '*' || s[1] == '=')) {
-					brk2 = s[1];
-					s++;
-				}
-			} else if (s[0] == brk2 && s[1] == ']') {
-				brk2 = 0;
-				s++;
-			}
+			s++;
 		}
-		s++;
 	}
 	return n;
 }
